@@ -64,6 +64,7 @@ func NewEngine(repo, specs string, timeoutMs int, overlay map[string][]byte) (*E
 		e.Funcs[fn.String()] = fn
 	}
 	e.findSentinels()
+	e.canonStructs()
 	// contracts
 	e.CS = NewContractSet()
 	for _, p := range pkgs {
@@ -204,4 +205,33 @@ func (e *Engine) lookupType(name string, pkg *types.Package) types.Type {
 		}
 	}
 	return nil
+}
+
+// canonStructs groups the transparent named struct types by identical underlying struct.
+func (e *Engine) canonStructs() {
+	groups := map[string][]string{}
+	for _, p := range e.Prog.AllPackages() {
+		sc := p.Pkg.Scope()
+		for _, n := range sc.Names() {
+			tn, ok := sc.Lookup(n).(*types.TypeName)
+			if !ok || tn.IsAlias() {
+				continue
+			}
+			st, ok := tn.Type().Underlying().(*types.Struct)
+			if !ok || isOpaqueStruct(tn.Type()) || st.NumFields() == 0 {
+				continue
+			}
+			g := types.TypeString(st, nil)
+			groups[g] = append(groups[g], typeKey0(tn.Type()))
+		}
+	}
+	for _, ks := range groups {
+		if len(ks) < 2 {
+			continue
+		}
+		sort.Strings(ks)
+		for _, k := range ks {
+			structCanon[k] = ks[0]
+		}
+	}
 }
